@@ -142,6 +142,24 @@ def check_case(case):
             res.bad(f"C12/action/apply-exception:{succ.key}", {**info, "error": repr(succ)})
         elif not close(exp, succ[1].get(("g",), 10 ** 9)):
             res.bad("C12/action/assigned-value", {**info, "got": float(succ[1].get(("g",), 10 ** 9))})
+        # evaluation reads the *current* state only: an operator that evaluated this state before gives, on a state
+        # lacking one of the fluents, what a fresh operator gives there (whatever the library's rule for a missing
+        # fluent is)
+        used = sorted(k for k in st[1] if any(tuple(pddl.substitute(x, ENV)) == k for x in pddl.walk(e) if x and x[0] not in pddl.NUM_OPS))
+        if used and oka:
+            part = (st[0], {k: v for k, v in st[1].items() if k != used[0]})
+
+            def twice():
+                op = Operator(d2.actions["act"], d2, ARGS, objs)
+                op.apply(build_state(d2, world, st))
+                return read_lib_state(op.apply(build_state(d2, world, part)))[1].get(("g",))
+            r_used = lib_call(twice)
+            r_fresh = lib_call(lambda: read_lib_state(Operator(d2.actions["act"], d2, ARGS, objs).apply(build_state(d2, world, part)))[1].get(("g",)))
+            same = (r_used[0] == r_fresh[0]) and (not r_used[0] or r_used[1] == r_fresh[1] or
+                                                  (r_used[1] is not None and r_fresh[1] is not None and close(r_used[1], r_fresh[1])))
+            if not same:
+                res.bad("C12/action/value-depends-on-an-earlier-evaluation",
+                        {**info, "missing_fluent": list(used[0]), "used_operator": repr(r_used[1])[:80], "fresh_operator": repr(r_fresh[1])[:80]})
         lo, hi = pddl.fmt_value(F(float(exp) - 0.5)), pddl.fmt_value(F(float(exp) + 0.5))
         for cond, want in ((["and", [">=", e, lo]], True), (["and", ["<", e, lo]], False), (["and", ["<=", e, hi]], True), (["and", [">", e, hi]], False)):
             okd, d3 = parse_domain(action_domain(cond, ["and", ["r"]]))
